@@ -290,3 +290,9 @@ package text
 //@ func NewPosition(filename string, line int, column int) (p *Position)
 //@   ensures fresh(p) && p.Filename == filename && p.Line == line && p.Column == column
 //@   assigns nothing
+
+//@ -- exported views for contracts of other packages
+//@ pure func DataOf(r *Reader) []byte = r.file.data
+//@ pure func CurOf(r *Reader, pos parsley.Pos) int = int(pos) - r.file.offset
+//@ pure func LenOf(r *Reader) int = r.file.len
+//@ pure func ValidPattern(expr string) bool = validPattern(expr)
